@@ -507,6 +507,37 @@ impl Gen {
         const LINKS: &[K] = &[K::LinkF, K::LinkD];
         match kind {
             "abs" => {
+                if self.profile.name == "spelling-independence" && rng.chance(1, 6) {
+                    // strings on which the documented resolution is unambiguous but easy to get
+                    // wrong: protocol markers that are not prefixes, stacked markers, odd casing,
+                    // dots next to separators, expansion errors
+                    let n = self.name(rng);
+                    let specials = [
+                        format!("x{}://{}", "ftp", n),
+                        format!("/{}/http://h/{}", n, n),
+                        format!("{}/file://{}", n, n),
+                        format!("FTP://{}", n),
+                        format!("hTTps:///{}/../{}", n, n),
+                        format!("file:/{}", n),
+                        format!("file://file://{}", n),
+                        format!("ftp://{}//{}/./", n, n),
+                        format!("./{}/.././{}/", n, n),
+                        format!("{}/../../{}", n, n),
+                        format!("..//{}", n),
+                        format!("/{}/./../{}//", n, n),
+                        "~".to_string(),
+                        format!("~/{}/..", n),
+                        format!("~{}", n),
+                        format!("{}~", n),
+                        format!("$RV_A/{}", n),
+                        format!("${{RV_A}}{}", n),
+                        format!("{}$RV_A", n),
+                        format!("/$RV_UNSET/{}", n),
+                        format!("/{}/${{}}", n),
+                        format!("/{}$", n),
+                    ];
+                    return Op::Abs { p: rng.pick(&specials).clone() };
+                }
                 let p = self.p_target(m, rng, None);
                 Op::Abs { p: self.arg(p, m, rng) }
             },
